@@ -63,6 +63,20 @@ func runC03(p *Plan) {
 					if tr.Chance(1, 25) {
 						src = SrcSpec{Kind: "foreign", Form: "foreign"}
 					}
+					if found && own == "" && tr.Chance(1, 4) {
+						// the path ends on a struct / map / slice: a pointer to a copy of its current value (the emitted
+						// `value.(*T)` arm replaces the node by it), or a typed-nil pointer of that type (ignored)
+						t := el.Type()
+						for t.Kind() == reflect.Ptr {
+							t = t.Elem()
+						}
+						if (t.Kind() == reflect.Struct || t.Kind() == reflect.Map || t.Kind() == reflect.Slice) && !isByteSlice(t) {
+							src = SrcSpec{Kind: "foreign", Form: "ownnilp", Own: t}
+							if el.Kind() != reflect.Ptr && tr.Bool() {
+								src = SrcSpec{Kind: "foreign", Form: "ownp", Own: t, OwnV: el}
+							}
+						}
+					}
 					f := FormPtr
 					if tr.Chance(1, 6) {
 						f = FormPtrPtr
